@@ -371,6 +371,10 @@ def compare(ops, policy=SESSION, limits=None, extra="", impl=None):
         mper, mclosed, _ = model[i]
         for cid in sorted(set(iper) | set(mper)):
             a, b = iper.get(cid, []), mper.get(cid, [])
+            if op[0] == "send" and cid == op[1] and b"BecomeMonitor" in op[2]:
+                # the model keeps ordinary deliveries and monitor copies in two lists; in the one step in
+                # which a connection turns into a monitor it receives both kinds, interleaved
+                a, b = sorted(a), sorted(b)
             if op[0] == "sleep":
                 # slots time out one by one as the clock passes their deadlines; which of two deadlines
                 # a millisecond apart is noticed first is not part of the contract
